@@ -160,10 +160,20 @@ func (c *Ctx) Account(res *RunResult, key string, nontrivial bool, sample any) {
 		}
 		for ii, inc := range p.Incs {
 			graceful := false
+			ops := append([]plan.Op(nil), inc.Ops...)
 			for _, op := range inc.Ops {
+				for _, cl := range op.Par {
+					ops = append(ops, cl...) // the operations of concurrent clients count as well
+				}
+			}
+			for _, op := range ops {
 				switch op.Kind {
 				case "shutdown":
 					graceful = true
+				case "damage_file":
+					// counted by the check itself (file_damage_while_running)
+				case "alert_update":
+					c.faultCounts["alert_edited_in_mid_run"]++
 				case "mem_pressure":
 					c.faultCounts["memory_pressure_eviction"]++
 				case "advance":
